@@ -50,14 +50,19 @@ def ds_models():
             from ..absint import Raised
 
             raise Raised("KeyError", node)
-        return Obj("Var", str(k), (), {"attrs": v.get("attrs", {}), "len": v.get("len"), "name": k})
+        return _var(k, v)
 
     return {("Dataset", "__getitem__"): getitem, ("Var", "__len__"): lambda ev, r, a, k, n: r.attrs["len"]}
 
 
+def _var(k, v):
+    return Obj("Var", str(k), (), {"attrs": v.get("attrs", {}), "len": v.get("len"), "name": k})
+
+
 def make_ds(vars_, dims=None, attrs=None):
+    # ds.variables is a mapping name -> variable: iterating it gives the names, .items() names and variables
     return Obj("Dataset", "ds", (), {"vars": copy.deepcopy(vars_), "dims": tuple(dims if dims is not None else vars_.keys()),
-                                    "variables": list(vars_.keys()), "attrs": dict(attrs or {}), "__isinstance__": ("Dataset",)})
+                                    "variables": {k: _var(k, v) for k, v in vars_.items()}, "attrs": dict(attrs or {}), "__isinstance__": ("Dataset",)})
 
 
 # ---------------------------------------------------------------------------------- COMODO
